@@ -35,6 +35,7 @@ var c13cfgs = []c13cfg{
 	{normal: []int{0, 2}, errs: []int{1, 3}, perLevel: map[slog.Level][]int{slog.DebugLevel: {4}}},
 	{normal: []int{0}, errs: []int{1}, perLevel: map[slog.Level][]int{slog.WarnLevel: {4}, slog.DebugLevel: {5}}},
 	{normal: []int{0}, errs: []int{0}, perLevel: map[slog.Level][]int{slog.DebugLevel: {4, 5}}},
+	{normal: []int{0, 2, 4}, errs: []int{1, 3, 5}}, // three members per class: one may fail while two succeed
 }
 
 var c13levels = []slog.Level{slog.AlwaysLevel, slog.TraceLevel, slog.InfoLevel, slog.ErrorLevel, slog.PanicLevel}
